@@ -11,6 +11,7 @@ import Driver.Util
 import JanetModel.Lib.Spec
 import JanetModel.Lib.Kmp
 import JanetModel.Lib.Sort
+import JanetModel.Lib.Range
 open Driver JanetModel.Lib
 
 inductive V where
@@ -187,7 +188,46 @@ def natStart (v : Option V) : Option Nat :=
   | none => some 0
   | some x => match intOf x with | some i => if i < 0 then none else some i.toNat | none => none
 
+/-- a number as a multiple of 1/8 (exact for ints and for decimals with at most three fractional digits that are eighths) -/
+def scaled8 : V → Option Int
+  | .int i => some (8 * i)
+  | .other t =>
+    if t.front != 'd' then none else
+    let body := (t.drop 1).toString
+    let neg := body.startsWith "-"
+    let body := if neg then (body.drop 1).toString else body
+    match body.splitOn "." with
+    | [ip] => (ip.toNat?).map (fun n => (if neg then -1 else 1) * 8 * (n : Int))
+    | [ip, fp] =>
+      if fp.length > 3 then none else
+      match ip.toNat?, (fp ++ String.ofList (List.replicate (3 - fp.length) '0')).toNat? with
+      | some n, some m => if m % 125 == 0 then some ((if neg then -1 else 1) * (8 * (n : Int) + (m / 125 : Nat))) else none
+      | _, _ => none
+    | _ => none
+  | _ => none
+
+def showScaled8 (v : Int) : V :=
+  if v % 8 == 0 then .int (v / 8) else
+  let neg := v < 0
+  let a := v.natAbs
+  let frac := match a % 8 with
+    | 1 => "125" | 2 => "25" | 3 => "375" | 4 => "5" | 5 => "625" | 6 => "75" | _ => "875"
+  .other ((if neg then "d-" else "d") ++ toString (a / 8) ++ "." ++ frac)
+
+/-- `range` through the mirror of the C code (Lib/Range.lean); `none` there means the interpreter aborts -/
+def rangeOutWith (args : List V) (s e st : Int) : Out :=
+  match Range.rangeC s e st with
+  | some l => if l.length > 100000 then .skip else .ok (.seq 1 (l.map showScaled8)) args
+  | none => .skip
+
 def call (f : String) (args : List V) : Out :=
+  if f == "range" then
+    (match args.mapM scaled8 with
+     | some [e] => rangeOutWith args 0 e 8
+     | some [s, e] => rangeOutWith args s e 8
+     | some [s, e, st] => rangeOutWith args s e st
+     | _ => .skip)
+  else
   if args.any unsupported then .skip else
   match f, args with
   -- ---------------------------------------------------------------- search family
@@ -462,12 +502,6 @@ def call (f : String) (args : List V) : Out :=
      | some cs => .ok (.seq 1 (interleave cs)) args
      | none => .skip)
   | "interpose", [sep, .seq _ l] => .ok (.seq 1 (interpose sep l)) args
-  | "range", xs =>
-    (match ints xs with
-     | some [e] => .ok (.seq 1 ((rangeI 0 e 1).map V.int)) args
-     | some [s, e] => .ok (.seq 1 ((rangeI s e 1).map V.int)) args
-     | some [s, e, st] => .ok (.seq 1 ((rangeI s e st).map V.int)) args
-     | _ => .skip)
   | "distinct", [.seq _ l] => .ok (.seq 1 (distinct l)) args
   | "frequencies", [.seq _ l] => .ok (.tbl 1 ((frequencies l).map (fun kv => (kv.1, V.int kv.2)))) args
   | "merge", colls =>
